@@ -30,6 +30,8 @@ const (
 	KSeqFirstOrAll
 	KNT
 	KRTrim // text.RightTrim(kid, WsSpaces): only in the C07 sharing shapes
+	KSuppress // combinator.SuppressError(kid)
+	KSingle   // combinator.Single(kid): only in the C07 sharing shapes
 )
 
 // G is a grammar expression.
@@ -65,6 +67,8 @@ func ST(k ...*G) *G        { return &G{K: KSeqTry, Kids: k} }
 func SF(a, b *G) *G        { return &G{K: KSeqFirstOrAll, Kids: []*G{a, b}} }
 func N(i int) *G           { return &G{K: KNT, NT: i} }
 func RT(g *G) *G           { return &G{K: KRTrim, Kids: []*G{g}} }
+func SUP(g *G) *G          { return &G{K: KSuppress, Kids: []*G{g}} }
+func SG(g *G) *G           { return &G{K: KSingle, Kids: []*G{g}} }
 
 var (
 	a = T('a')
@@ -119,6 +123,7 @@ func Curated() []*Grammar {
 		{Name: "R->(M|x)|(M|a+)|(M|a+b);M->a|ab|abx", Rules: []*G{A(A(N(1), x), A(N(1), M1(a)), A(N(1), S(M1(a), b))), A(a, S(a, b), S(a, b, x))}, Finite: true, LRFree: true},
 		{Name: "R->(a?|Q)x|Qb;Q->b?|x", Rules: []*G{A(S(A(O(a), N(1)), x), S(N(1), b)), A(O(b), x)}, Finite: true, LRFree: true},
 		{Name: "choice((ab)?,x)b?", Rules: []*G{S(C(O(S(a, b)), x), O(b))}, Finite: true, LRFree: true},
+		{Name: "R->Q?a|Q?b;Q->sup(x)", Rules: []*G{A(S(O(N(1)), a), S(O(N(1)), b)), SUP(x)}, Finite: true, LRFree: true},
 		{Name: "(a|nl)*b", Rules: []*G{S(M(A(a, nl)), b)}, Finite: true, LRFree: true},
 		{Name: "L->L nl a|a", Rules: []*G{A(S(N(0), nl, a), a)}, Finite: true, Recursive: true},
 	})
@@ -289,6 +294,8 @@ func Sharing() []*Grammar {
 		{Name: "R->(M|x)|(M|a+)|(M|a+b);M->a|ab|abx", Rules: []*G{A(A(N(1), x), A(N(1), M1(a)), A(N(1), S(M1(a), b))), A(a, S(a, b), S(a, b, x))}, Finite: true},
 		{Name: "R->(a?|Q)x|Qb;Q->b?|x", Rules: []*G{A(S(A(O(a), N(1)), x), S(N(1), b)), A(O(b), x)}, Finite: true},
 		{Name: "R->(a?|Q)|Q;Q->b?|x|xx", Rules: []*G{A(A(O(a), N(1)), N(1)), A(O(b), x, S(x, x))}, Finite: true},
+		{Name: "R->single(M)x|Mb;M->(a)|ab", Rules: []*G{A(S(SG(N(1)), x), S(N(1), b)), A(S(a), S(a, b))}, Finite: true},
+		{Name: "R->Mb|single(M)x|Mx;M->(a)|ab|a+", Rules: []*G{A(S(N(1), b), S(SG(N(1)), x), S(N(1), x)), A(S(a), S(a, b), M1(a))}, Finite: true},
 		{Name: "R->rtrim(M)b|Mx;M->a", Rules: []*G{A(S(RT(N(1)), b), S(N(1), x)), a}, Finite: true},
 		{Name: "R->rtrim(M)b|Mx;M->a|aa", Rules: []*G{A(S(RT(N(1)), b), S(N(1), x)), A(a, S(a, a))}, Finite: true},
 		{Name: "R->Mx|rtrim(M)b;M->a", Rules: []*G{A(S(N(1), x), S(RT(N(1)), b)), a}, Finite: true},
@@ -315,7 +322,7 @@ func (g *Grammar) Productive() bool {
 			return false
 		case KSeqTry, KSeqFirstOrAll:
 			return ok(e.Kids[0])
-		case KMany1, KSepBy1, KRTrim:
+		case KMany1, KSepBy1, KRTrim, KSuppress, KSingle:
 			return ok(e.Kids[0])
 		}
 		for _, k := range e.Kids {
@@ -522,6 +529,10 @@ func (bt *Built) build(e *G, w *Wrap) parsley.Parser {
 		p = combinator.SeqFirstOrAll(kids()...)
 	case KRTrim:
 		p = text.RightTrim(bt.build(e.Kids[0], w), text.WsSpaces)
+	case KSuppress:
+		p = combinator.SuppressError(bt.build(e.Kids[0], w))
+	case KSingle:
+		p = combinator.Single(bt.build(e.Kids[0], w))
 	}
 	if w.Inner != nil {
 		p = w.Inner(e, p)
